@@ -3,8 +3,10 @@ from gsa import facts, ir, paths
 from gsa.facts import Unit, rel, AnalysisBroken
 from gsa.report import Check
 
-UNITS = [Unit('mx_pat', 'matrix_pat.cpp', ['src/Zigzag_persistence/include/gudhi/zigzag_persistence.h'],
+UNITS = [Unit('mx_pat', 'matrix_pat.cpp', ['src/Zigzag_persistence/include/gudhi/zigzag_persistence.h',
+                                          'src/Zigzag_persistence/include/gudhi/filtered_zigzag_persistence.h'],
               no_inst=True)]
+HF = 'src/Zigzag_persistence/include/gudhi/filtered_zigzag_persistence.h'
 H = 'src/Zigzag_persistence/include/gudhi/zigzag_persistence.h'
 FUNCS = ('_process_forward_arrow', '_apply_surjective_reflection_diamond', '_process_backward_arrow')
 
@@ -30,6 +32,94 @@ def classify(x):
                 ir.show(tt).startswith('births_['):
             return ['INSERT']
     return []
+
+
+def run_arrow_order(chk, F):
+    """filtered front-ends: the arrow counter labels the data of the current operation (filtration value, cell key):
+    on every path of insert_cell / remove_cell it is advanced exactly once, and nothing is keyed with it before"""
+    n = 0
+    for f in F.functions:
+        if f['inst'] not in (0, 2) or not f['file'].endswith('filtered_zigzag_persistence.h'):
+            continue
+        if f['name'] not in ('insert_cell', 'remove_cell'):
+            continue
+        n += 1
+
+        def cl(x):
+            if x.get('k') == 'UnaryOperator' and x.get('op') == '++' and ir.show(x['c'][0]) == 'numArrow_':
+                return ['INCR']
+            if ir.is_call(x):
+                nm = ir.call_name(x)
+                if nm == 'apply_identity' and ir.is_this_call(x):
+                    return ['INCR']
+                if nm == '_store_filtration_value':
+                    return ['USE']
+                if any(ir.show(a) == 'numArrow_' for a in ir.call_args(x)):
+                    return ['USE']
+            return []
+        ps = paths.enumerate_paths(f, cl, loop_mode='01', keep_conds=True)
+        bad = None
+        for p in ps:
+            if p.end == 'throw':
+                continue
+            tags = p.tags()
+            if tags.count('INCR') != 1 and bad is None:
+                bad = 'the arrow counter is advanced %d times on a path' % tags.count('INCR')
+            if 'USE' in tags and ('INCR' not in tags or tags.index('USE') < tags.index('INCR')) and bad is None:
+                bad = 'data is keyed with the arrow number before the counter is advanced: it is attached to the ' \
+                      'previous operation'
+        chk.ob('E2-arrow-order', '%s::%s advances the arrow counter once, before anything is keyed with it' % (
+            f.get('clsname'), f['name']), '%s:%d' % (HF, f['line']), bad is None, bad or '',
+            key='E2|%s::%s|arrow-order' % (f.get('clsname'), f['name']))
+    chk.expect_count('E2-arrow-order', 'insert_cell / remove_cell of the filtered front-ends', n, 4)
+
+
+def run_frontier(chk, F):
+    """the diamond rewrites a chain as the cumulated sum of the chains passed so far: the inner loop starts at a
+    frontier variable kept across iterations; every path that runs that accumulation must move the frontier to the
+    chain it accumulated into (otherwise the next accumulation adds the passed chains twice)"""
+    fs = [f for f in F.functions if f['name'] == '_apply_surjective_reflection_diamond' and f['inst'] in (0, 2)]
+    f = fs[0]
+    outer = [x for x in ir.walk(f['body']) if x.get('k') == 'ForStmt' and
+             ir.contains(x.get('body'), lambda y: y.get('k') == 'ForStmt')]
+    n = 0
+    for lp in outer:
+        for inner in ir.walk(lp.get('body')):
+            if inner.get('k') != 'ForStmt' or inner is lp:
+                continue
+            init = inner.get('init')
+            iv = None
+            for d in ir.walk(init):
+                if d.get('k') == 'VarDecl' and d.get('init') is not None:
+                    r = ir.skipcasts(d['init'])
+                    if r is not None and r.get('k') == 'DeclRefExpr':
+                        iv = (d['n'], r['n'], r.get('id'))
+            if iv is None:
+                continue
+            bound = ir.show(inner.get('cond'))
+            # the loop runs from the frontier up to the outer loop's current position and accumulates into it
+            if not ir.contains(inner.get('body'), lambda y: ir.is_call(y) and ir.call_name(y) == 'add_to'):
+                continue
+            n += 1
+            frontier = iv[1]
+
+            def cl(x, inner=inner, frontier=frontier):
+                if x is inner:
+                    return ['$acc']
+                t = ir.write_target(x)
+                if t is not None and ir.show(t) == frontier:
+                    return ['MOVE']
+                if ir.is_call(x) and ir.call_name(x) == 'add_to':
+                    return ['ACC']
+                return []
+            pseudo = {'body': lp.get('body'), 'name': f['name'], 'file': f['file']}
+            ps = paths.enumerate_paths(pseudo, cl, loop_mode='1', keep_conds=True)
+            bad = [p for p in ps if 'ACC' in p.tags() and 'MOVE' not in p.tags()[p.tags().index('ACC'):]]
+            chk.ob('E2-frontier', 'the diamond moves the accumulation frontier %s after every cumulated sum' % frontier,
+                   '%s:%s' % (H, inner.get('l')), not bad, '' if not bad else 'a path accumulates the passed chains '
+                   'into the current one and leaves %s where it was: the next unavailable birth re-adds them' % frontier,
+                   key='E2|diamond|frontier|%s' % frontier)
+    chk.expect_count('E2-frontier', 'cumulated-sum loops in the diamond', n, 1)
 
 
 def run(tier, replay=None):
@@ -99,5 +189,7 @@ def run(tier, replay=None):
     chk.ob('E2n-births', 'the diamond orders the available births with reverse_birth_order', '%s:%d' % (H, fs[0]['line']),
            uses, '' if uses else 'the comparator of availableBirth no longer consults the birth ordering',
            key='E2n|diamond|uses-ordering')
+    run_arrow_order(chk, F)
+    run_frontier(chk, F)
     chk.assumptions += ['clang 14 parser', 'births_[k] = v creates a key, births_.at(k) = v updates one']
     return chk
